@@ -6,3 +6,5 @@ mod c12;
 mod c05;
 #[cfg(kani)]
 mod c14;
+#[cfg(kani)]
+mod c04;
